@@ -50,30 +50,32 @@ def check_naming(ctx, rule):
     ctx.floor(rule, nn, 1, 'ConnectionImpl construction in open_connection')
     LG = 'core.letter_id_generator.LetterIdGenerator'
     check_writers(ctx, rule, LG, 'index', [('LetterIdGenerator.__init__', lambda w: w.fresh and isinstance(w.stmt.value, ast.Constant) and w.stmt.value.value == 0),
-                                               ('LetterIdGenerator.next', lambda w: w.kind == 'aug' and isinstance(w.stmt.op, ast.Add)
-                                                and isinstance(w.stmt.value, ast.Constant) and w.stmt.value.value == 1)], floor=2)
+                                               ('LetterIdGenerator.next', None)], floor=2)     # the stored value is decided on the paths below
     f_next = repo.func('LetterIdGenerator.next')
     for p in paths_of(repo, f_next):
         aug = [e for e in p.events if e.kind == 'store' and e.target == 'self.index']
         rv = p.outcome[1] if p.outcome[0] == 'return' else None
-        good = False
-        if isinstance(rv, ast.Call) and norm(rv.func) == 'number_to_letter_id' and len(rv.args) == 2 and len(aug) == 1:
-            a0 = rv.args[0]
 
-            def lin_(x):
-                """(coefficient of the counter's value BEFORE the increment, constant) of an arithmetic term over self.index"""
-                if isinstance(x, ast.Constant) and isinstance(x.value, int) and not isinstance(x.value, bool):
-                    return (0, x.value)
-                if isinstance(x, ast.Attribute) and norm(x) == 'self.index':
-                    return (1, 0) if getattr(x, '_ep', 99) < aug[0].ep else (1, 1)      # read after the store: already incremented
-                if isinstance(x, ast.BinOp) and isinstance(x.op, (ast.Add, ast.Sub)):
-                    l_, r_ = lin_(x.left), lin_(x.right)
-                    if l_ is None or r_ is None:
-                        return None
-                    sg = 1 if isinstance(x.op, ast.Add) else -1
-                    return (l_[0] + sg * r_[0], l_[1] + sg * r_[1])
-                return None
-            good = lin_(a0) == (1, 0) and norm(rv.args[1]) == 'True'
+        def lin_(x):
+            """(coefficient of the counter's value BEFORE the increment, constant) of an arithmetic term over self.index"""
+            if isinstance(x, ast.Constant) and isinstance(x.value, int) and not isinstance(x.value, bool):
+                return (0, x.value)
+            if isinstance(x, ast.Attribute) and norm(x) == 'self.index':
+                return (1, 0) if getattr(x, '_ep', 99) < aug[0].ep else (1, 1)      # read after the store: already incremented
+            if isinstance(x, ast.BinOp) and isinstance(x.op, (ast.Add, ast.Sub)):
+                l_, r_ = lin_(x.left), lin_(x.right)
+                if l_ is None or r_ is None:
+                    return None
+                sg = 1 if isinstance(x.op, ast.Add) else -1
+                return (l_[0] + sg * r_[0], l_[1] + sg * r_[1])
+            return None
+        ctx.check(len(aug) == 1 and aug[0].value is not None and lin_(aug[0].value) == (1, 1), rule, 'next:increments-by-one', f_next.loc(),
+                  'next() advances the counter by exactly one, once', 'next() stores %s into the counter' % [norm(a.value)[:60] if a.value is not None else '?' for a in aug])
+        good = False
+        f_n2l = repo.func('number_to_letter_id')
+        if isinstance(rv, ast.Call) and norm(rv.func) == 'number_to_letter_id' and len(aug) == 1:
+            a0, a1 = arg_by_name(rv, f_n2l, 'value'), arg_by_name(rv, f_n2l, 'caps')
+            good = a0 is not None and a1 is not None and lin_(a0) == (1, 0) and norm(a1) == 'True'
         ctx.check(good, rule, 'next:pre-increment', f_next.loc(), 'next() converts the value read before the increment, with capitals',
                   'next() returns %s' % norm(rv)[:80])
     f_name = repo.func('ConnectionImpl.name')
